@@ -114,3 +114,9 @@ func init() {
 		"E4 chunks stage registered for C16 ('received' clause): the real receiver (transport.Chunk) runs on a strict in-memory file system; after each script the power is lost: every snapshot that had been finalized and announced to the node must still be there byte for byte (directory, flag file, main and external files)",
 	}, Stage{Engine: "snapcheck", Mode: "chunks", BatchesQ: 16, BatchesT: 32, Par: 16, TimeoutQ: 600, TimeoutT: 3600})
 }
+
+func init() {
+	addStages("C04", "fault_enumeration", []string{
+		"E2 replay stage registered for C04 (crash recovery on the snapshot path): power loss of a replica while it is being caught up by a file or streamed snapshot - at the exit of RecoverFromSnapshot, at the entry of the Sync that follows it (on-disk state machines), while it saves a snapshot of its own, a few milliseconds into the repair; it must restart and still hold everything it acknowledged (recovered-store comparison, restart without panic, equality with the replay of the committed log)",
+	}, Stage{Engine: "clusterrun", Mode: "replay", Race: true, BatchesQ: 8, BatchesT: 16, Par: 8, TimeoutQ: 900, TimeoutT: 5400})
+}
